@@ -93,6 +93,20 @@ CLAIMED = {
         "design_ref": "DESIGN.md §5 C11, §3.8",
         "note": COMMON_NOTE + "Assumes pages written before a failed fsync stay visible through the map (kernel behaviour). Pairs of faults are sampled only in the thorough tier.",
     },
+    "C04": {
+        "category": "proof",
+        "technique": "Lean 4 invariant proof over all interleavings of split reader/writer events (writer begin and commit separate, readers registering in between) given atomic registration, which is decided on the step order regenerated from Tx::new + deterministic-scheduler correspondence on real threads at instrumented yield points",
+        "text": "Proved for every trace and any number of readers (Jamm/Props/C04.lean): accounting invariant in every reachable state; when the open writer commits no page of any registered reader's snapshot is free or written, however readers registered/left between the writer's begin and commit; a writer starts from the newest committed snapshot and excludes other writers. The atomicity of 'read header + register' is an obligation decided on every run on the regenerated Tx::new step order (false for the pinned release: D10, with a machine-checked witness trace; repaired by a fix: commit). Tie: real transactions on real threads under a deterministic scheduler driven by verif-hooks yield points: all schedules with <=1 preemption, a seeded sample with 2, seeded random schedules, of 1-2 readers against 2-4 page-reusing commits; each reader's two full dumps must be equal and equal the committed state after c commits for some c >= the number of commits that had returned before it began (checked by the Lean driver against the specification).",
+        "design_ref": "DESIGN.md §5 C04, §3.8",
+        "note": COMMON_NOTE + "A-lock: a mutex-protected critical section is atomic w.r.t. other holders (the link from the step list to the atomic event is this assumption, not a micro-step proof). A-hdr: a header slot is read atomically; interleavings inside DBInner::meta and inside libc are below the yield points. Weak-memory effects are delegated to std locks.",
+    },
+    "C09": {
+        "category": "proof",
+        "technique": "Lean 4 theorems on a lock-protocol model (file mutex, map rwlock with both admission policies, one transaction per thread): writer exclusion, deadlock freedom, termination measure, readers not blocked by an open writer + obligations on regenerated lock orders + deterministic-scheduler correspondence (read-modify-write increments, file growth)",
+        "text": "Proved for any number of threads, scripts and schedules (Jamm/Props/C09.lean): at most one write transaction open; whenever some thread has work left some thread can move, for both rwlock reader-admission policies; each step strictly decreases a work measure (every fair run finishes); a reader's begin is enabled while a writer is open and not remapping; a writer starts from the newest snapshot (no lost update). Decided on regenerated step lists: Tx::new takes the transaction lock first; resize takes map write lock then map-handle mutex; header read inside the reader-list mutex, map handle cloned after it is released; drop takes only the reader-list mutex. Tie: 2-3 writer threads doing read-modify-write increments with 1-2 readers, including commits that grow the file (resize path), under all <=1-preemption schedules, sampled 2-preemption and seeded random schedules: no overlap of write transactions, every commit ok, final counter = number of increments, readers see committed states, the scheduler never finds all threads blocked.",
+        "design_ref": "DESIGN.md §5 C09, §3.8",
+        "note": COMMON_NOTE + "A thread that opens two transactions can deadlock (documented; excluded by the model's one-transaction-per-thread discipline). The scheduler explores the admit-readers policy only (a parked resizer is not an OS-level waiter); the blocking policy is covered by the theorem. Liveness assumes a fair OS scheduler.",
+    },
 }
 
 REASON_PENDING = "check not built yet (build in progress, see DESIGN.md section 8)"
